@@ -161,3 +161,11 @@ Example erase_nonvacuous :
             HTxn [OSetNP 0 1 2] true; HCompact] in
   no_reopen h = true /\ quiet_hist s0 h = true /\ erase_abandoned h <> h.
 Proof. cbv zeta; repeat split; try (vm_compute; reflexivity). intro H; discriminate H. Qed.
+
+(* K-C07-vector at the level of the erasure statement *)
+Lemma erase_refuted : exists h, wf_hist h = true /\ no_reopen h = true /\
+  m_dump (run h) <> m_dump (run (erase_abandoned h)).
+Proof.
+  exists [HTxn [OGetLabel 0; OCreateNode 1 0] true; HTxn [OSetVec 0] false].
+  repeat split; try (vm_compute; reflexivity). intro H; vm_compute in H; discriminate H.
+Qed.
